@@ -767,11 +767,18 @@ func (c *Client) readResponseTagged(tag, typ string) (startTLS *startTLSCommand,
 		startTLS = cmd
 	}
 
-	if cmdErr == nil && code != "CAPABILITY" {
+	if cmdErr == nil {
 		switch cmd.(type) {
-		case *startTLSCommand, *loginCommand, *authenticateCommand, *unauthenticateCommand:
-			// These commands invalidate the capabilities
+		case *startTLSCommand:
+			// The completion of STARTTLS is received in plaintext: the
+			// capabilities must be discarded even if it carries a
+			// CAPABILITY response code
 			c.setCaps(nil)
+		case *loginCommand, *authenticateCommand, *unauthenticateCommand:
+			// These commands invalidate the capabilities
+			if code != "CAPABILITY" {
+				c.setCaps(nil)
+			}
 		}
 	}
 
